@@ -57,3 +57,60 @@ Definition relevant_spec (H160 : bytes -> bytes) (is_cf_or_ic : bytes -> bool)
            (s : fstate) (outs ins : list bytes) : Prop :=
   (contracts s = true /\ exists o, In o outs /\ is_cf_or_ic o = true) \/
   (exists sc p k, In sc (outs ++ ins) /\ In p (pushes sc) /\ In k (subs s) /\ k = push_key H160 p).
+
+(* ---------------------------------------------------------------------------------------- *)
+(* Executable statement of C08 over operations and observations (the harness' and the model's):
+   the subscriptions are a MULTISET of 20-byte keys (order is not part of the property);
+   851 IsRelevant does not say what the filter means (a complete push whose key is subscribed in some
+       output / input script, or contracts on and a contract formation / instrument creation output)
+   852 the subscriptions after subscribe / unsubscribe calls are not the multiset sum / difference *)
+Definition count_k (k : bytes) (l : list bytes) : Z := zlen (filter (fun x => bytes_eqb x k = true) l).
+Definition mset_eqb (a b : list bytes) : bool := forallb (fun k => count_k k a =? count_k k b) (a ++ b).
+
+Fixpoint chunk (fuel : nat) (n : nat) (l : bytes) : list bytes :=
+  match fuel with
+  | O => []
+  | S f => match l with [] => [] | _ => take n l :: chunk f n (drop n l) end
+  end.
+
+Definition spec_relevant (H : bytes -> bytes) (is_c : bytes -> bool) (s : fstate) (outs ins : list bytes) : bool :=
+  (contracts s && existsb is_c outs)
+  || existsb (fun sc => existsb (fun p => 0 <? count_k (push_key H p) (subs s)) (pushes sc)) (outs ++ ins).
+
+Definition step08 (htbl : list (bytes * bytes)) (ctbl : list bytes) (s : fstate) (o : op) (ob : obs) : Z * fstate :=
+  let H := table_lookup htbl in
+  match o with
+  | OSubscribe ds => (0, subscribe H s ds)
+  | OUnsubscribe ds => (0, unsubscribe H s ds)
+  | OSubContracts => (0, FState (subs s) true)
+  | OUnsubContracts => (0, FState (subs s) false)
+  | OIsRelevant outs ins =>
+      ((if zlist_eqb ob [OK; b2z (spec_relevant H (in_table ctbl) s outs ins)] then 0 else 851), s)
+  | OHash160 _ => (0, s)
+  | OSubscribed =>
+      match ob with
+      | _ :: n :: rest =>
+          ((if (n =? zlen (subs s)) && mset_eqb (chunk (S (length rest)) 20 rest) (subs s) then 0 else 852), s)
+      | _ => (852, s)
+      end
+  end.
+
+Fixpoint mon08_from (htbl : list (bytes * bytes)) (ctbl : list bytes) (s : fstate) (i : Z) (ops : list op) (tr : list obs)
+  : option (Z * obs) :=
+  match ops, tr with
+  | o :: ops', ob :: tr' =>
+      let '(code, s1) := step08 htbl ctbl s o ob in
+      if negb (code =? 0) then Some (i, [code]) else mon08_from htbl ctbl s1 (i + 1) ops' tr'
+  | [], [] => None
+  | _, _ => Some (i, [897])
+  end.
+Definition c08_monitor (htbl : list (bytes * bytes)) (ctbl : list bytes) : checker op :=
+  fun ops tr => mon08_from htbl ctbl f_init 0 ops tr.
+
+(* hypothesis: the oracle table knows every datum that is subscribed / unsubscribed (its key is 20 bytes) *)
+Definition keys20 (htbl : list (bytes * bytes)) (ops : list op) : bool :=
+  forallb (fun o => match o with
+                    | OSubscribe ds | OUnsubscribe ds =>
+                        forallb (fun d => (length (push_key (table_lookup htbl) d) =? 20)%nat) ds
+                    | _ => true
+                    end) ops.
